@@ -423,7 +423,7 @@ class HiveGenerator(generator.Generator):
         ):
             # Render a lenient %m/%d non-padded (M/d) so single-digit sources stay parseable
             return format_time(
-                _lenient_parse_format(self.sql(expression, "format")),
+                _lenient_parse_format(self.sql(expression.args.get("format"), comment=False)),
                 self.dialect.INVERSE_TIME_MAPPING,
                 self.dialect.INVERSE_TIME_TRIE,
             )
